@@ -3,12 +3,14 @@ package main
 // C13 — Retry delays stay within their configured envelope (PX; random draws are enumerated choice points).
 
 import (
+	"context"
 	"fmt"
 	"math"
 	"time"
 
 	"github.com/failsafe-go/failsafe-go"
 	"github.com/failsafe-go/failsafe-go/retrypolicy"
+	"github.com/failsafe-go/failsafe-go/verifrt/vcontext"
 	"github.com/failsafe-go/failsafe-go/verifrt/vrand"
 	"github.com/failsafe-go/failsafe-go/verifrt/vrt"
 )
@@ -22,6 +24,7 @@ type c13Config struct {
 	jitterF  float32
 	maxDur   time.Duration
 	fnDur    time.Duration // how long each attempt takes
+	ctxDl    time.Duration // the caller's context has this deadline (0 = none)
 	draws    int
 }
 
@@ -41,6 +44,9 @@ func (c c13Config) String() string {
 	}
 	if c.fnDur != 0 {
 		s += fmt.Sprintf(" attempt=%v", c.fnDur)
+	}
+	if c.ctxDl != 0 {
+		s += fmt.Sprintf(" contextDeadline=%v", c.ctxDl)
 	}
 	return s
 }
@@ -93,13 +99,19 @@ func (c c13Config) run() {
 	b = b.OnRetryScheduled(func(e failsafe.ExecutionScheduledEvent[int]) {
 		scheds = append(scheds, sched{e.Delay, vrt.Elapsed(), time.Duration(vrt.Elapsed() - t0)})
 	})
-	failsafe.Get(func() (int, error) {
+	ex := failsafe.NewExecutor[int](b.Build())
+	if c.ctxDl != 0 {
+		ctx, cancel := vcontext.WithDeadline(context.Background(), time.Unix(0, vrt.Now()).Add(c.ctxDl))
+		defer cancel()
+		ex = ex.WithContext(ctx)
+	}
+	ex.Get(func() (int, error) {
 		starts = append(starts, vrt.Elapsed())
 		if c.fnDur > 0 {
 			vrt.Sleep(int64(c.fnDur))
 		}
 		return 0, E1
-	}, b.Build())
+	})
 	vrt.Mark(fmt.Sprint(len(scheds), scheds))
 	// the un-jittered value prescribed for the k-th scheduled delay
 	// float32 rounding of each multiplication plus the truncation to whole nanoseconds after each
@@ -203,7 +215,7 @@ func (c c13Config) run() {
 			}
 		}
 	}
-	if c.maxDur == 0 && len(scheds) != c13Retries {
+	if c.maxDur == 0 && c.ctxDl == 0 && len(scheds) != c13Retries {
 		vrt.Fail(fmt.Sprintf("%d retries scheduled, want %d", len(scheds), c13Retries))
 	}
 }
@@ -232,6 +244,12 @@ func c13Configs(tier string) []c13Config {
 			type jc struct {
 				j  time.Duration
 				jf float32
+			}
+			if k.kind == "fixed" || k.kind == "backoff" && k.factor == 2 && k.mdMul == 1000 {
+				// the caller's context has a deadline of its own: before the first delay ends, and in the middle of a later one
+				for _, dl := range []time.Duration{d / 3, d*5/2 + 1} {
+					out = append(out, c13Config{kind: k.kind, d: d, factor: k.factor, maxDelay: k.mdMul * d, ctxDl: dl, draws: draws})
+				}
 			}
 			jitters := []jc{{0, 0}, {d / 10, 0}, {d, 0}, {2 * d, 0}, {0, 0.1}, {0, 0.25}, {0, 1}}
 			for _, j := range jitters {
@@ -263,7 +281,7 @@ func init() {
 	register(&CheckDef{
 		Property:  "C13",
 		Technique: "exhaustive enumeration of delay configurations, each executed on the real retry policy under the virtual clock with every random draw an enumerated choice point",
-		Rule: "a program = delay kind (fixed, backoff x factor x maxDelay, random range, four delay functions) x magnitude (1us .. 7h+1ns) x jitter (none, three durations, three factors) x max duration (none, 2.5 delays, huge) x attempt duration, eight consecutive failures; " +
+		Rule: "a program = delay kind (fixed, backoff x factor x maxDelay, random range, four delay functions) x magnitude (1us .. 7h+1ns) x jitter (none, three durations, three factors) x max duration (none, 2.5 delays, huge) x attempt duration, plus a caller context whose own deadline falls inside the first or a later delay, eight consecutive failures; " +
 			"each draw of the first 3 (quick) / 5 (thorough) is enumerated over {0, 0.5, 1-2^-53}; distinct = distinct sequences of scheduled delays",
 		Assume: []string{"the jitter and random-range formulas are monotone in the draw, so the extreme draws bound every draw", "float32 arithmetic: equality with the real-number formula up to 2^-21 relative error per multiplication",
 			"configurations the builder documentation gives no meaning to (maxDelay < delay, delayMin > delayMax, factor < 1) are outside the alphabet"},
